@@ -242,3 +242,130 @@ func (x *hW) opReset() {
 		x.n = 0
 	}
 }
+
+// ---- batch operations ----
+
+// adoptNew scans the world for entities the model does not know yet and
+// records them as created with (set, tgt); returns how many were found.
+func (x *hW) adoptNew(set uint8, tgt Entity, v *hVals, withVals bool) int {
+	m := All()
+	q := x.w.Query(&m)
+	var fresh [hMaxH]Entity
+	nf := 0
+	for q.Next() {
+		e := q.Entity()
+		known := false
+		for j := 0; j < x.n; j++ {
+			if x.h[j] == e && x.alive[j] {
+				known = true
+			}
+		}
+		if !known {
+			vAssume(nf < hMaxH)
+			fresh[nf] = e
+			nf++
+		}
+	}
+	for k := 0; k < nf; k++ {
+		i := x.mCreated(fresh[k], set, tgt)
+		if withVals {
+			x.mSetVals(i, set, v)
+		}
+	}
+	return nf
+}
+
+// opNewBatch: Builder.NewBatch / NewBatchQ.
+func (x *hW) opNewBatch(set uint8, count int, r int, withTarget bool, t Entity, withComps bool, useQ bool) {
+	v := hSymVals("batch")
+	var b *Builder
+	if withComps {
+		b = NewBuilderWith(&x.w, x.comps(set, &v)...)
+	} else {
+		b = NewBuilder(&x.w, x.ids(set)...)
+	}
+	if r >= 0 {
+		b = b.WithRelation(x.id[r])
+	}
+	legal := count >= 1 && hRelCount(set) <= 1 && x.locks == 0
+	if withTarget {
+		legal = legal && r >= 0 && set&(1<<r) != 0 && x.tgtOK(t)
+	}
+	tt := Entity{}
+	if withTarget {
+		tt = t
+	}
+	if !useQ {
+		pan, _ := vCatch(func() {
+			if withTarget {
+				b.NewBatch(count, t)
+			} else {
+				b.NewBatch(count)
+			}
+		})
+		x.expectPanic(pan, !legal, "NewBatch panics exactly when illegal")
+		if !pan {
+			got := x.adoptNew(set, tt, &v, withComps)
+			vAssert(got == count, "NewBatch creates exactly count entities")
+		}
+		return
+	}
+	var q Query
+	pan, _ := vCatch(func() {
+		if withTarget {
+			q = b.NewBatchQ(count, t)
+		} else {
+			q = b.NewBatchQ(count)
+		}
+	})
+	x.expectPanic(pan, !legal, "NewBatchQ panics exactly when illegal")
+	if pan {
+		return
+	}
+	vAssert(x.w.IsLocked(), "batch query holds the world lock")
+	vAssert(q.Count() == count, "batch query counts the created entities")
+	got := 0
+	for q.Next() {
+		e := q.Entity()
+		i := x.mCreated(e, set, tt)
+		if withComps {
+			x.mSetVals(i, set, &v)
+		}
+		if set&(1<<uA) != 0 {
+			vAssert((*hA)(q.Get(x.id[uA])).X == x.a[i], "batch query gives access to the new component")
+		}
+		got++
+	}
+	vAssert(got == count, "batch query iterates exactly the created entities")
+	vAssert(!x.w.IsLocked() || x.locks > 0, "exhausted batch query releases the lock")
+}
+
+// matching returns the model indices matching filter kind f / target t.
+func (x *hW) matching(f int, t Entity) ([hMaxH]int, int) {
+	var idx [hMaxH]int
+	n := 0
+	for j := 0; j < x.n; j++ {
+		if x.modelMatch(j, f, t) {
+			idx[n] = j
+			n++
+		}
+	}
+	return idx, n
+}
+
+func (x *hW) opRemoveEntities(flt Filter, f int, t Entity) {
+	_, n := x.matching(f, t)
+	legal := x.locks == 0
+	cnt := 0
+	pan, _ := vCatch(func() { cnt = x.w.Batch().RemoveEntities(flt) })
+	x.expectPanic(pan, !legal, "RemoveEntities panics exactly when locked")
+	if pan {
+		return
+	}
+	vAssert(cnt == n, "RemoveEntities returns the number of matching entities")
+	for j := 0; j < x.n; j++ {
+		if x.modelMatch(j, f, t) {
+			x.alive[j] = false
+		}
+	}
+}
